@@ -5,9 +5,10 @@ import GlueVerif.Lemmas.C17Exact
 Property theorems only; helper lemmas live in `GlueVerif.Lemmas.C17*`. Every statement is about the
 executable definitions of `GlueVerif.Model.DataStruct` that the driver `Drivers/C17.lean` runs
 against `glue/core/data.py` on every check: `step` (one call of the mutation API, with the repairs
-F13/F16–F22 of `props.d/C17/fixes`), `obs` (what the harness reads off the real object),
+F13/F16–F25 of `props.d/C17/fixes` and C14's F14), `obs` (what the harness reads off the real object),
 `specInv` / `specStep` / `specTrace` (the predicates the driver evaluates on the *implementation's*
-observations), `classify` (which calls the theorems cover).
+observations). The theorems are unconditional; `classify` only records where the model claims to
+follow `glue` (everywhere except hand-set externally derivable ids inside a collection).
 -/
 namespace GlueVerif.C17
 open GlueVerif.DataStruct
@@ -30,75 +31,79 @@ theorem find_spec (probe : List Label) (s : State) (l : Label) :
   Lemmas.C17.find_spec probe s l
 
 /-- **One call preserves the invariant** — for every state and every call of the mutation API with
-arbitrary arguments (valid or invalid: wrong shapes, absent ids, non-permutations, duplicate labels,
-…) that lies inside the hypothesis `classify s op = ok`. Since the repairs F20–F22 the hypothesis
-no longer excludes any known defect: removing a pixel / world component (refused), adding onto an id
-in use (array replaced and announced, other kinds refused) and `update_id` onto an id in use
-(refused) are all covered. Outside lie exactly the constructs listed in `Construct`: arguments that
-are not existing ComponentID objects (`unknownId`, a well-formedness condition of the model's fresh
-identities), 0-d arrays (`scalarShape`), and calls the model does not follow (`updateIdDependents`
-— C14's subject —, `updateNonMain`, `renameForeign`, `linkedInCollection`), none of which the
-harness executes.
+arbitrary arguments: wrong shapes, 0-d arrays, ids that are not components (free-standing, removed,
+re-assigned, or brand-new ComponentID objects the dataset has never seen), non-permutations,
+duplicate labels, other numbers of dimensions, coordinate / derived components where arrays are
+expected, … Nothing is excluded: removing a pixel / world component (F20), adding onto an id in use
+(F21), `update_id` onto an id in use (F22), an array of another shape offered to a dataset of 0-d
+arrays (F23) and `update_components` on a component without an array (F24) are refused;
+`update_id` rewrites the inputs of derived components (C14's F14). -/
+theorem step_inv (s : State) (op : Op) (h : Inv s) : Inv (step s op).state :=
+  Lemmas.C17.step_inv h
 
-Full statement (not provable for the model as it stands: an identifier `≥ next` collides with a
-later fresh one, and `Inv` does not cover 0-d datasets): `∀ s op, Inv s → Inv (step s op).state`. -/
-theorem step_inv_partial (s : State) (op : Op) (h : Inv s) (hc : classify s op = .ok) :
-    Inv (step s op).state :=
-  Lemmas.C17.step_inv h hc
+/-- **Every reachable state satisfies the invariant**: induction over all histories, of any length. -/
+theorem inv_reachable (pool : List Label) (ops : List Op) : Inv (run (init pool) ops) :=
+  Lemmas.C17.inv_run ops (Lemmas.C17.inv_init pool)
 
-/-- **Every reachable state satisfies the invariant**: induction over all histories, of any length,
-whose calls stay inside the hypothesis. -/
-theorem inv_reachable_partial (pool : List Label) (ops : List Op) (hok : allOk (init pool) ops = true) :
-    Inv (run (init pool) ops) :=
-  Lemmas.C17.inv_run ops (Lemmas.C17.inv_init pool) hok
-
-/-- The hypothesis is satisfiable by a history that exercises additions (first component: pixel and
-world components are generated), a derived component, a refresh from a dataset with another number
-of dimensions (F13), a re-identification, a removal with its cascade, and invalid calls. -/
+/-- A history that exercises additions (first component: pixel and world components are generated),
+a derived component, a refresh from a dataset with another number of dimensions (F13), a
+re-identification, a removal with its cascade, and invalid calls; the model follows the code on all
+of it (`allOk`). -/
 example : allOk (init [1, 2, 1, 5])
     [.register, .setCoords (some 7), .addArray 1 [3] 10, .addDerived true 3 [6], .addArray 2 [4] 20,
      .updateFrom ⟨1, [(1, 30), (2, 31)], [2, 2], some 8⟩, .updateId 6 0, .reorder [0, 6],
      .remove 0, .updateComponents [(0, [2, 2], 1)]] = true := by decide
 
-/-- … and by the calls that used to be excluded (F20–F22): removing a pixel id, adding onto an id in
-use (an array, then a pixel id), `update_id` onto an id in use. -/
+/-- The calls that used to be outside the theorems, in one history: a 0-d dataset (second 0-d array
+accepted, a vector refused — F23), ComponentID objects the dataset has never seen (`40`, `41`:
+removing one is ignored, `update_id` onto one re-assigns, a reorder naming one is refused),
+`update_id` of an input of a derived component (its inputs follow), `update_components` on a derived
+and on a pixel component (refused — F24), renaming an id that is no longer a component (only its
+label changes — F25). -/
 example :
-    let ops : List Op := [.register, .addArray 1 [3] 10, .addArray 2 [3] 20, .remove 5, .addArrayAt 4 [3] 30,
-      .addArrayAt 5 [3] 40, .updateId 4 6, .updateId 4 5]
-    allOk (init [1, 2, 1, 5]) ops = true ∧ (run (init [1, 2, 1, 5]) ops).pix = [5] ∧
-    (run (init [1, 2, 1, 5]) ops).comps = [⟨5, .pixel 0, [], 0⟩, ⟨4, .main, [3], 30⟩, ⟨6, .main, [3], 20⟩] := by
+    let ops0 : List Op := [.register, .addArray 1 [] 10, .addArray 2 [] 20, .addArray 3 [3] 30]
+    let s0 := run (init [1, 2, 1, 5]) ops0
+    let ops : List Op := [.register, .addArray 1 [3] 10, .addDerived true 3 [4], .remove 40, .updateId 4 41,
+      .reorder [5, 41, 40], .updateComponents [(6, [3], 1)], .updateComponents [(5, [3], 1)], .remove 41, .rename 41 2]
+    let s := run (init [1, 2, 1, 5]) ops
+    s0.shape = [] ∧ cids s0.comps = [4, 5] ∧ s0.pix = [] ∧ (step s0 (.addArray 3 [3] 30)).err = some .value ∧
+    (run (init [1, 2, 1, 5]) (ops.take 5)).comps = [⟨5, .pixel 0, [], 0⟩, ⟨41, .main, [3], 10⟩, ⟨6, .derived [41], [], 0⟩] ∧
+    ((trace [] (init [1, 2, 1, 5]) ops).map (·.err)) =
+      [none, none, none, none, none, some .value, some .value, some .value, none, none] ∧
+    s.comps = [⟨5, .pixel 0, [], 0⟩] ∧ s.label 41 = 2 ∧
+    (trace [] (init [1, 2, 1, 5]) ops).getLast?.map (·.msgs) = some [] := by
   decide
 
-
 /-- **Each call announces exactly what it changed** — for every state satisfying the invariant and
-every call inside the hypothesis, `specStep` holds on what the harness observes before and after:
+every call (arbitrary arguments, see `step_inv`), `specStep` holds on what the harness observes
+before and after:
 * a call that raised changed nothing observable and announced nothing;
 * without a hub nothing is announced; with a hub, replaying the `DataAddComponent` /
   `DataRemoveComponent` (each with its `ComponentsChanged`) / `ComponentReplaced` /
   `DataReorderComponent` messages on the old identifier list yields exactly the new list — every
   structural change is announced, nothing is announced that did not happen;
 * surviving identifiers keep their relative order unless the call is a reorder / an `update_id`;
-* an identifier's label changed iff `DataRenameComponent` was sent, the dataset label changed iff
-  `DataUpdate` was sent;
+* an identifier's label changed iff `DataRenameComponent` was sent (and only for components), the
+  dataset label changed iff `DataUpdate` was sent;
 * a surviving component whose class, shape or values changed is covered by a
-  `NumericalDataChanged`, which only the two value-updating calls send;
+  `NumericalDataChanged`, which only the two value-updating calls and a replacing `add_component`
+  send; the inputs of a derived component follow the announced `ComponentReplaced` and change in no
+  other way;
 * hub membership only changes through attach / register.
 
-Full statement: `∀ s op, Inv s → specStep … = true` (the remaining hypothesis is the model's scope,
-see `step_inv_partial`; before the repairs F21 / F22 it was false on the code, witnesses
-`silent_replace`, `update_id_merges`). -/
-theorem messages_exact_partial (probe : List Label) (s : State) (op : Op) (h : Inv s)
-    (hc : classify s op = .ok) :
+(Before the repairs F21 / F22 / F25 this was false on the code: witnesses `silent_replace`,
+`update_id_merges`, `rename_of_removed_id`.) -/
+theorem messages_exact (probe : List Label) (s : State) (op : Op) (h : Inv s) :
     specStep (obs probe s) op (obs probe (step s op).state) (step s op).msgs (step s op).err = true :=
-  Lemmas.C17.messages_exact probe h hc
+  Lemmas.C17.messages_exact probe h
 
-/-- **The property along whole histories**: for every history (any length) of calls inside the
-hypothesis, starting from a fresh dataset, the trace the harness records satisfies `specTrace` —
-the invariant on every observation and message exactness at every call. This is the `implok`
-verdict of the driver. -/
-theorem trace_ok_partial (pool probe : List Label) (ops : List Op) (hok : allOk (init pool) ops = true) :
+/-- **The property along whole histories**: for every history (any length, arbitrary calls),
+starting from a fresh dataset, the trace the harness records satisfies `specTrace` — the invariant
+on every observation and message exactness at every call. This is the `implok` verdict of the
+driver. -/
+theorem trace_ok (pool probe : List Label) (ops : List Op) :
     specTrace (obs probe (init pool)) (trace probe (init pool) ops) = true :=
-  Lemmas.C17.trace_ok probe ops (Lemmas.C17.inv_init pool) hok
+  Lemmas.C17.trace_ok probe ops (Lemmas.C17.inv_init pool)
 
 /-! ## Repaired defects: the model follows the repaired code -/
 
@@ -120,15 +125,15 @@ example :
     (step s (.addArrayAt 0 [3] 30)).msgs = [.numerical (some [0])] ∧
     cids (step s (.addArrayAt 0 [3] 30)).state.comps = [1, 0, 2] := by decide
 
-/-! ## Witnesses of the behaviour before the repairs F20–F22 (`stepUnrepaired`): each violates the
-Spec, and the repaired `step` satisfies it on the same input -/
+/-! ## Witnesses of the behaviour before the repairs F20–F23, F25 (`stepUnrepaired`): each violates
+the Spec, and the repaired `step` satisfies it on the same input -/
 
 /-- F20 (fixed): `remove_component` on a pixel id used to leave it listed in `pixel_component_ids`
 although it was no longer a component — the invariant failed on the observation. The repaired call
 is refused and changes nothing. -/
 theorem remove_coordinate_breaks :
     let s := run (init []) [.addArray 1 [3] 10]
-    s.pix = [1] ∧ classify s (.remove 1) = .ok ∧
+    s.pix = [1] ∧
     specInv (obs [] (stepUnrepaired s (.remove 1)).state) = false ∧
     (step s (.remove 1)).err = some .value ∧
     specInv (obs [] (step s (.remove 1)).state) = true := by decide
@@ -139,7 +144,6 @@ and announce nothing: `specStep` rejects that (with a hub). The repaired call an
 theorem silent_replace :
     let s := run (init []) [.register, .addArray 1 [3] 10]
     let op := Op.addArrayAt 0 [3] 20
-    classify s op = .ok ∧
     (stepUnrepaired s op).msgs = [] ∧
     (stepUnrepaired s op).state = (step s op).state ∧
     specStep (obs [] s) op (obs [] (stepUnrepaired s op).state) (stepUnrepaired s op).msgs
@@ -153,11 +157,35 @@ apply. The repaired call is refused and changes nothing. -/
 theorem update_id_merges :
     let s := run (init []) [.register, .addArray 1 [3] 10, .addArray 2 [3] 20]
     let op := Op.updateId 0 2
-    cids s.comps = [1, 0, 2] ∧ classify s op = .ok ∧
+    cids s.comps = [1, 0, 2] ∧
     cids (stepUnrepaired s op).state.comps = [1, 2] ∧
     specStep (obs [] s) op (obs [] (stepUnrepaired s op).state) (stepUnrepaired s op).msgs
       (stepUnrepaired s op).err = false ∧
     (step s op).err = some .value ∧
+    specStep (obs [] s) op (obs [] (step s op).state) (step s op).msgs (step s op).err = true := by decide
+
+/-- F23 (fixed): a dataset of 0-d arrays used to accept an array of any shape: `_shape` became that
+shape while the 0-d components stayed and no pixel component was generated — the invariant failed.
+The repaired call is refused and changes nothing. -/
+theorem scalar_dataset_breaks :
+    let s := run (init []) [.addArray 1 [] 10]
+    let op := Op.addArray 2 [3] 20
+    s.shape = [] ∧ cids s.comps = [0] ∧
+    (stepUnrepaired s op).err = none ∧ (stepUnrepaired s op).state.shape = [3] ∧
+    (stepUnrepaired s op).state.pix = [] ∧
+    specInv (obs [] (stepUnrepaired s op).state) = false ∧
+    (step s op).err = some .value ∧ (step s op).state = s ∧
+    specInv (obs [] (step s op).state) = true := by decide
+
+/-- F25 (fixed): `ComponentID.label = …` used to tell the hub of the id's *parent* even when the id
+was no longer one of its components (removed, or replaced by `update_id`): `specStep` rejects a
+`DataRenameComponent` for an identifier that is not a component; the repaired setter only changes the
+label, and `specStep` holds. -/
+theorem rename_of_removed_id :
+    let s := run (init [1]) [.register, .addArrayAt 0 [3] 10, .remove 0]
+    let op := Op.rename 0 2
+    cids s.comps = [1] ∧ (step s op).msgs = [] ∧ (step s op).state.label 0 = 2 ∧
+    specStep (obs [] s) op (obs [] (step s op).state) [.rename 0] none = false ∧
     specStep (obs [] s) op (obs [] (step s op).state) (step s op).msgs (step s op).err = true := by decide
 
 end GlueVerif.C17
